@@ -12,14 +12,19 @@ is never accepted with some other meaning".  Every outcome is `ok` or `err`
 list with exactly one `Eof` (`tokenize_eof`); leftmost-first over the symbol alternation is
 longest match (`symbols_longest_first`: no literal is a proper prefix of a later one).
 
-FULL STATEMENT (not proved):
-  theorem parse_complete : Derives ts f → parseFormula ts = some f
-  theorem derives_unique : Derives ts f → Derives ts f' → f = f'
-They are checked by the correspondence run: on every token sequence up to length 3 (thorough: 4)
-over the full token alphabet the real parser, the model and a brute-force enumeration of
-all derivations (`Grammar.allParses`) agree, and the enumeration never finds two trees.
+Completeness — every sentence of the grammar is accepted with its tree (`parse_complete`,
+`Proofs/ParseComplete.lean`: closed terms are self-delimiting, open terms and sub-formulas are
+read to their end whenever the next token is not a binary operator; 4 units of recursion budget
+per token suffice, which is what `parseFormula` supplies).  Hence the grammar is unambiguous
+(`derives_unique`: "the unique syntax tree the grammar assigns"), the parser returns `f` exactly
+when `f` is that tree (`parse_iff`) and rejects exactly the non-sentences (`reject_iff`).
+
+Not proved: `scan_eq_munch` — the scanner as a maximal-munch lexer specification (the token-level
+facts above are proved; the character-level scanner is compared with the real tokenizer on every
+generated text, incl. non-ASCII letters/digits and stray characters).
 -/
 import Rsbdd.Proofs.ParseNoLeaf
+import Rsbdd.Proofs.ParseComplete
 
 namespace Rsbdd.C08
 open Parser Grammar
@@ -55,6 +60,33 @@ theorem symbols_longest_first : ∀ i j : Fin symbolTable.length, i.val < j.val 
 /-- no symbol or keyword spelling maps to two tokens -/
 theorem symbol_spellings_unique : (symbolTable.map (·.1)).Nodup := by decide
 theorem keyword_spellings_unique : (keywordTable.map (·.1)).Nodup := by decide
+
+/-- COMPLETENESS: every sentence of the grammar is accepted, with its tree -/
+theorem parse_complete {ts : List Token} {f : Formula} (h : Derives ts f) : parseFormula ts = some f :=
+  parseFormula_complete h
+
+/-- the grammar is unambiguous: a token list has at most one tree -/
+theorem derives_unique {ts : List Token} {f g : Formula} (hf : Derives ts f) (hg : Derives ts g) : f = g := by
+  have h1 := parseFormula_complete hf
+  have h2 := parseFormula_complete hg
+  rw [h1] at h2; exact Option.some.inj h2
+
+/-- the parser accepts exactly the grammar: on a tokenized text, `f` is returned iff `f` is the tree the
+grammar assigns to the text -/
+theorem parse_iff {cs : List Ch} {ord : List (String × Nat)} {ts : List Token} (ht : tokenize cs ord = some ts)
+    (f : Formula) : parseFormula ts = some f ↔ Derives ts f :=
+  ⟨fun h => parse_text_sound ht h, parseFormula_complete⟩
+
+/-- … and a text is rejected iff it is not a sentence -/
+theorem reject_iff {cs : List Ch} {ord : List (String × Nat)} {ts : List Token} (ht : tokenize cs ord = some ts) :
+    parseFormula ts = none ↔ ¬ ∃ f, Derives ts f := by
+  constructor
+  · rintro h ⟨f, hf⟩
+    rw [parseFormula_complete hf] at h; cases h
+  · intro h
+    cases hp : parseFormula ts with
+    | none => rfl
+    | some f => exact absurd ⟨f, parse_text_sound ht hp⟩ h
 
 /-- the parser never builds a diagram leaf -/
 theorem parse_noLeaf {ts : List Token} {f : Formula} (h : parseFormula ts = some f) : NoLeaf f := by
